@@ -144,7 +144,7 @@ def load_program(repo=None, target_set="lib", crate="bitcask"):
     f, p = (libs or progs)[0]
     if p.header.get("driver") is None:
         raise FactError("fact file without header: %s" % f)
-    if target_set == "lib" and p.header["bodies"] < BODY_FLOOR_LIB:
+    if target_set == "lib" and crate == "bitcask" and p.header["bodies"] < BODY_FLOOR_LIB:
         raise FactError("only %d bodies extracted for the lib (floor %d): analysis would be partial" % (p.header["bodies"], BODY_FLOOR_LIB))
     p.fact_file = f
     p.tree_hash = hsh
